@@ -4,7 +4,8 @@ cd "$(dirname "$0")"
 tier="${1:-quick}"
 rc=0
 for id in $(python3 -c "import json;print(' '.join(c['property_id'] for c in json.load(open('MANIFEST.json'))['checks']))"); do
-  ./check "$id" "$tier" | cut -c1-300 || rc=1
+  out=$(./check "$id" "$tier"); [ $? -eq 0 ] || rc=1
+  printf '%s\n' "$out" | cut -c1-300
 done
 python3-vt validate.py || rc=1
 exit $rc
